@@ -6,68 +6,68 @@ VERIF = os.path.dirname(os.path.dirname(os.path.abspath(__file__)))
 
 CHECKS = {
     "C01": {
-        "bins": ["router_run"], "bins_small": ["router_run"],
+        "bins": ["router_run", "aliases"], "bins_small": ["router_run"],
         "category": "model_checking",
-        "text": "RouterSys.tla = Router.tla (a transcription of Router::events/consume, scheduler, waiters, per-filter logs, ack log, graveyard, slab key reuse) + the link side of every connection + clients. TLC checks exhaustively, for 2 clients, overlapping literal/+ filters, QoS 0-2 subscriptions and publishes, subscribe/unsubscribe, all interleavings of link pushes/drains/Ready and router steps (window 3, buffer 4, 2 scheduling iterations): what has been forwarded for every subscription is exactly the filter's log between the subscription's start and its cursor, in order (DeliveredExactly), nothing is forwarded for a filter the session does not subscribe (NoSpurious), every subscription has exactly one data request somewhere (NoLostRequest) and at quiescence every cursor is at the log's end (QuiescentComplete). The model is bound to the code by trace validation: TLC simulates the model with richer constants (3 nets, takeover, disconnects, pings, 3 filters incl. '#', a '$'-topic), the stimuli are executed on the real Router (scaled-constant build) and after every step the harness records the step's result and a projection of the whole routing state; TLC accepts a trace only if every step is a model step with exactly that state, and evaluates the property's invariants in every state. Seeded drivers at production constants (window 100, buffer 200, backlogs of 120-450 messages, four ack pacings) are validated the same way.",
-        "design_ref": "DESIGN.md section 6 / C01",
-        "note": "Trusted: Router.tla/RouterSys.tla as transcription of rumqttd/src/router (bound step by step by trace validation of the real router with a full state projection), TLC, the verif hooks that step the router single-threaded, the scripted clients of the harness. Exhaustive only for the small configurations; production constants (window 100, buffer 200) sampled by validated traces. Topic aliases, subscription ids, message expiry, segment eviction are not modelled here.",
-        "technique": "TLC model checking of RouterSys.tla + TLC trace validation (state projection per step, invariants on every trace state) of the real router stepped through TLC-generated and seeded schedules",
+        "text": "RouterSys.tla = Router.tla (a transcription of Router::events/consume, scheduler, waiters, per-filter logs, ack log, graveyard, slab key reuse) + the link side of every connection + clients. TLC checks exhaustively, for 2 clients, overlapping literal/+ filters, QoS 0-2 subscriptions and publishes, subscribe/unsubscribe, all interleavings of link pushes/drains/Ready and router steps (window 3, buffer 4, 2 scheduling iterations): what has been forwarded for every subscription is exactly the filter's log between the subscription's start and its cursor, in order (DeliveredExactly), nothing is forwarded for a filter the session does not subscribe (NoSpurious), every subscription has exactly one data request somewhere (NoLostRequest) and at quiescence every cursor is at the log's end (QuiescentComplete). The model is bound to the code by trace validation: TLC simulates the model with richer constants (3 nets, takeover, disconnects, pings, 3 filters incl. '#', a '$'-topic), the stimuli are executed on the real Router (scaled-constant build) and after every step the harness records the step's result and a projection of the whole routing state; TLC accepts a trace only if every step is a model step with exactly that state, and evaluates the property's invariants in every state. Seeded drivers at production constants (window 100, buffer 200, backlogs of 120-450 messages, four ack pacings) are validated the same way. 'With the original topic' when MQTT 5 topic aliases are in use is decided by Alias.tla (the alias tables of the publishing client, of the broker in both directions and of the subscribing client, transcribed): TLC checks OutOriginal / InOriginal / NoFlags / TablesAgree exhaustively for Topic Alias Maximum 0..2, and TLC-generated plus random scripts run on the real routing core between two real rumqttc v5 state machines; every recorded step (client verdict, accepted topic, forwards with topic and alias exactly as queued for the link) is validated by AliasTrace.tla, strictly and then by the MQTT 5 alias rules alone.",
+        "design_ref": "DESIGN.md section 6 / C01 and A.8",
+        "note": "Trusted: Router.tla/RouterSys.tla as transcription of rumqttd/src/router (bound step by step by trace validation of the real router with a full state projection), TLC, the verif hooks that step the router single-threaded, the scripted clients of the harness. Exhaustive only for the small configurations; production constants (window 100, buffer 200) sampled by validated traces. Topic aliases are modelled separately (Alias.tla: one publisher, one subscriber, QoS 0) with the scheduling abstracted to one batch per filter and turn; subscription ids, message expiry, segment eviction are not modelled here.",
+        "technique": "TLC model checking of RouterSys.tla and Alias.tla + TLC trace validation (state projection per step, invariants on every trace state) of the real router stepped through TLC-generated and seeded schedules",
     },
     "C03": {
         "bins": ["router_run"], "bins_small": ["router_run"],
         "category": "model_checking",
         "text": "Router.tla models every unwrap/expect/index/assert of the routing core that an input can reach as an explicit `panicked` flag. TLC explores exhaustively all interleavings of connects (incl. client-id takeover and slab-key reuse), subscribes, publishes, arbitrary acknowledgements from an adversary, link closes and raw Ready/Disconnect/DeviceData events for live, removed and never-registered ids, and checks NoPanic, SlabsAligned, ReadyqSound. TLC-generated schedules with three adversaries, persistent and clean sessions and stale events are executed on the real router (debug assertions on) and validated step by step; a panic of the real router is a violation whatever the model says. Beyond the model, seeded schedules with shared subscriptions, Unicode/odd topics and filters, invalid client ids, wills, Shadow requests and unsolicited acks run on the real router and must end with a fresh client pair still being served (liveness probe).",
         "design_ref": "DESIGN.md section 6 / C03",
-        "note": "Trusted: Router.tla/RouterSys.tla as transcription of rumqttd/src/router (bound step by step by trace validation of the real router with a full state projection), TLC, the verif hooks that step the router single-threaded, the scripted clients of the harness. Exhaustive only for the small configurations; production constants sampled by validated traces. Topic aliases, subscription ids, message expiry, segment eviction are not modelled here.",
-        "technique": "TLC model checking of RouterSys.tla + TLC trace validation (state projection per step, invariants on every trace state) of the real router stepped through TLC-generated and seeded schedules",
+        "note": "Trusted: Router.tla/RouterSys.tla as transcription of rumqttd/src/router (bound step by step by trace validation of the real router with a full state projection), TLC, the verif hooks that step the router single-threaded, the scripted clients of the harness. Exhaustive only for the small configurations; production constants sampled by validated traces. Topic aliases are modelled separately (Alias.tla: one publisher, one subscriber, QoS 0) with the scheduling abstracted to one batch per filter and turn; subscription ids, message expiry, segment eviction are not modelled here.",
+        "technique": "TLC model checking of RouterSys.tla and Alias.tla + TLC trace validation (state projection per step, invariants on every trace state) of the real router stepped through TLC-generated and seeded schedules",
     },
     "C08": {
         "bins": ["router_run"], "bins_small": ["router_run"],
         "category": "model_checking",
         "text": "RouterSys.tla with persistent and clean sessions of the same client id over several network connections (resume, takeover, alternating clean flags), the graveyard, rewind of requests to the oldest unacknowledged forward: TLC checks SessionPresentRule, CleanStartsEmpty, SubMapConsistent, NoLostRequest, DeliveredExactly (what was forwarded and not rewound equals the log between subscription start and cursor, so unacknowledged messages are sent again and acknowledged ones are not), NoSpurious and QuiescentComplete (messages accepted while away are delivered).",
         "design_ref": "DESIGN.md section 6 / C08",
-        "note": "Trusted: Router.tla/RouterSys.tla as transcription of rumqttd/src/router (bound step by step by trace validation of the real router with a full state projection), TLC, the verif hooks that step the router single-threaded, the scripted clients of the harness. Exhaustive only for the small configurations; production constants sampled by validated traces. Topic aliases, subscription ids, message expiry, segment eviction are not modelled here.",
-        "technique": "TLC model checking of RouterSys.tla + TLC trace validation (state projection per step, invariants on every trace state) of the real router stepped through TLC-generated and seeded schedules",
+        "note": "Trusted: Router.tla/RouterSys.tla as transcription of rumqttd/src/router (bound step by step by trace validation of the real router with a full state projection), TLC, the verif hooks that step the router single-threaded, the scripted clients of the harness. Exhaustive only for the small configurations; production constants sampled by validated traces. Topic aliases are modelled separately (Alias.tla: one publisher, one subscriber, QoS 0) with the scheduling abstracted to one batch per filter and turn; subscription ids, message expiry, segment eviction are not modelled here.",
+        "technique": "TLC model checking of RouterSys.tla and Alias.tla + TLC trace validation (state projection per step, invariants on every trace state) of the real router stepped through TLC-generated and seeded schedules",
     },
     "C06": {
         "bins": ["router_run"], "bins_small": ["router_run"],
         "category": "model_checking",
         "text": "Same model; ghost obligations per connection (PUBACK/PUBREC/PUBCOMP/SUBACK/UNSUBACK/PINGRESP in request order): every reply pushed must be the next one owed to that connection (AcksInOrder) and none is left at quiescence (QuiescentComplete); QoS 2 publishes reach the logs only on release (DeliveredExactly over the log contents). The model is bound to the code by trace validation: TLC simulates the model with richer constants (3 nets, takeover, disconnects, pings, 3 filters incl. '#', a '$'-topic), the stimuli are executed on the real Router (scaled-constant build) and after every step the harness records the step's result and a projection of the whole routing state; TLC accepts a trace only if every step is a model step with exactly that state, and evaluates the property's invariants in every state. Seeded drivers at production constants (window 100, buffer 200, backlogs of 120-450 messages, four ack pacings) are validated the same way.",
         "design_ref": "DESIGN.md section 6 / C06",
-        "note": "Trusted: Router.tla/RouterSys.tla as transcription of rumqttd/src/router (bound step by step by trace validation of the real router with a full state projection), TLC, the verif hooks that step the router single-threaded, the scripted clients of the harness. Exhaustive only for the small configurations; production constants (window 100, buffer 200) sampled by validated traces. Topic aliases, subscription ids, message expiry, segment eviction are not modelled here.",
-        "technique": "TLC model checking of RouterSys.tla + TLC trace validation (state projection per step, invariants on every trace state) of the real router stepped through TLC-generated and seeded schedules",
+        "note": "Trusted: Router.tla/RouterSys.tla as transcription of rumqttd/src/router (bound step by step by trace validation of the real router with a full state projection), TLC, the verif hooks that step the router single-threaded, the scripted clients of the harness. Exhaustive only for the small configurations; production constants (window 100, buffer 200) sampled by validated traces. Topic aliases are modelled separately (Alias.tla: one publisher, one subscriber, QoS 0) with the scheduling abstracted to one batch per filter and turn; subscription ids, message expiry, segment eviction are not modelled here.",
+        "technique": "TLC model checking of RouterSys.tla and Alias.tla + TLC trace validation (state projection per step, invariants on every trace state) of the real router stepped through TLC-generated and seeded schedules",
     },
     "C09": {
         "bins": ["router_run"], "bins_small": ["router_run"],
         "category": "model_checking",
         "text": "Same model with backlogs larger than the window, all ack pacings and an adversary sending arbitrary acks: inflight window never above the limit, ids unique and in range, forwarding resumes after in-order acks (QuiescentComplete), and handling one connection's packets never removes another connection (AckClosesOnlyThat). The model is bound to the code by trace validation: TLC simulates the model with richer constants (3 nets, takeover, disconnects, pings, 3 filters incl. '#', a '$'-topic), the stimuli are executed on the real Router (scaled-constant build) and after every step the harness records the step's result and a projection of the whole routing state; TLC accepts a trace only if every step is a model step with exactly that state, and evaluates the property's invariants in every state. Seeded drivers at production constants (window 100, buffer 200, backlogs of 120-450 messages, four ack pacings) are validated the same way.",
         "design_ref": "DESIGN.md section 6 / C09",
-        "note": "Trusted: Router.tla/RouterSys.tla as transcription of rumqttd/src/router (bound step by step by trace validation of the real router with a full state projection), TLC, the verif hooks that step the router single-threaded, the scripted clients of the harness. Exhaustive only for the small configurations; production constants (window 100, buffer 200) sampled by validated traces. Topic aliases, subscription ids, message expiry, segment eviction are not modelled here.",
-        "technique": "TLC model checking of RouterSys.tla + TLC trace validation (state projection per step, invariants on every trace state) of the real router stepped through TLC-generated and seeded schedules",
+        "note": "Trusted: Router.tla/RouterSys.tla as transcription of rumqttd/src/router (bound step by step by trace validation of the real router with a full state projection), TLC, the verif hooks that step the router single-threaded, the scripted clients of the harness. Exhaustive only for the small configurations; production constants (window 100, buffer 200) sampled by validated traces. Topic aliases are modelled separately (Alias.tla: one publisher, one subscriber, QoS 0) with the scheduling abstracted to one batch per filter and turn; subscription ids, message expiry, segment eviction are not modelled here.",
+        "technique": "TLC model checking of RouterSys.tla and Alias.tla + TLC trace validation (state projection per step, invariants on every trace state) of the real router stepped through TLC-generated and seeded schedules",
     },
     "C14": {
         "bins": ["router_run"], "bins_small": ["router_run"],
         "category": "model_checking",
         "text": "RouterSys.tla with a well-behaved publisher/subscriber pair and adversaries (arbitrary acks, disconnects, reconnect storms under their own ids, raw late events): the pair's delivery and reply invariants (DeliveredExactly, AcksInOrder, QuiescentComplete) must hold whatever the others do, handling one connection's packets removes at most that connection (AckClosesOnlyThat), and a Ready/PublishWill of an ended connection never removes a later one. The cross-generation demand for Event::Disconnect is a listed known finding (a late Disconnect removes the connection that reuses the slab id): its witness is replayed on every run and reported as KNOWN-FINDING while it reproduces; every other violation is still reported. TLC-generated schedules and seeded structured scenarios are executed on the real Router (scaled-constant build) and validated step by step against RouterTrace.tla with these invariants evaluated in every state.",
         "design_ref": "DESIGN.md section 6 / C14",
-        "note": "Trusted: Router.tla/RouterSys.tla as transcription of rumqttd/src/router (bound step by step by trace validation of the real router with a full state projection), TLC, the verif hooks that step the router single-threaded, the scripted clients of the harness. Exhaustive only for the small configurations; production constants sampled by validated traces. Topic aliases, subscription ids, message expiry, segment eviction are not modelled here.",
-        "technique": "TLC model checking of RouterSys.tla + TLC trace validation (state projection per step, invariants on every trace state) of the real router stepped through TLC-generated and seeded schedules",
+        "note": "Trusted: Router.tla/RouterSys.tla as transcription of rumqttd/src/router (bound step by step by trace validation of the real router with a full state projection), TLC, the verif hooks that step the router single-threaded, the scripted clients of the harness. Exhaustive only for the small configurations; production constants sampled by validated traces. Topic aliases are modelled separately (Alias.tla: one publisher, one subscriber, QoS 0) with the scheduling abstracted to one batch per filter and turn; subscription ids, message expiry, segment eviction are not modelled here.",
+        "technique": "TLC model checking of RouterSys.tla and Alias.tla + TLC trace validation (state projection per step, invariants on every trace state) of the real router stepped through TLC-generated and seeded schedules",
     },
     "C15": {
         "bins": ["router_run"], "bins_small": ["router_run"],
         "category": "model_checking",
         "text": "RouterSys.tla with retained and empty-payload publishes, literal and wildcard subscriptions at QoS 0-2, re-subscription: ghost rules (RetainedRules) demand that every retained replay pushed for a subscription consists of the current retained messages of matching topics only, each once, only for a new subscription, and complete unless cut by the delivery window; live forwards are unflagged (DeliveredExactly counts only unflagged forwards), and the set of retained topics is part of the state projection compared with the real router at every step. TLC-generated schedules and seeded structured scenarios are executed on the real Router (scaled-constant build) and validated step by step against RouterTrace.tla with these invariants evaluated in every state.",
         "design_ref": "DESIGN.md section 6 / C15",
-        "note": "Trusted: Router.tla/RouterSys.tla as transcription of rumqttd/src/router (bound step by step by trace validation of the real router with a full state projection), TLC, the verif hooks that step the router single-threaded, the scripted clients of the harness. Exhaustive only for the small configurations; production constants sampled by validated traces. Topic aliases, subscription ids, message expiry, segment eviction are not modelled here.",
-        "technique": "TLC model checking of RouterSys.tla + TLC trace validation (state projection per step, invariants on every trace state) of the real router stepped through TLC-generated and seeded schedules",
+        "note": "Trusted: Router.tla/RouterSys.tla as transcription of rumqttd/src/router (bound step by step by trace validation of the real router with a full state projection), TLC, the verif hooks that step the router single-threaded, the scripted clients of the harness. Exhaustive only for the small configurations; production constants sampled by validated traces. Topic aliases are modelled separately (Alias.tla: one publisher, one subscriber, QoS 0) with the scheduling abstracted to one batch per filter and turn; subscription ids, message expiry, segment eviction are not modelled here.",
+        "technique": "TLC model checking of RouterSys.tla and Alias.tla + TLC trace validation (state projection per step, invariants on every trace state) of the real router stepped through TLC-generated and seeded schedules",
     },
     "C16": {
         "bins": ["router_run", "wills"], "bins_small": ["router_run"],
         "category": "model_checking",
         "text": "Will.tla is the decision table of one connection's life seen from outside (will none/plain/retained x QoS x end by socket drop / protocol error / DISCONNECT / keep-alive expiry x an earlier connection of the same client id whose will fired x protocol version -> how often a standing subscriber sees the will, what a late subscriber gets as retained); TLC checks that the table implies the property and enumerates the rows, each row runs through the real remote() of server/broker.rs with a real router thread. Routing core: RouterSys.tla with wills registered at connect, DISCONNECT packets, link ends and PublishWill events in every order: WillAtMostOnce, WillNeverAfterDisconnect, WillPublishedWhenDue (checked when the event channel is empty), and the will reaches the matching subscribers like any publish (DeliveredExactly, retained wills via RetainedRules). The link-side decision (remote(): will delay, takeover cancel/fire) is not part of this check. TLC-generated schedules and seeded structured scenarios are executed on the real Router (scaled-constant build) and validated step by step against RouterTrace.tla with these invariants evaluated in every state.",
         "design_ref": "DESIGN.md section 6 / C16",
-        "note": "Trusted: Router.tla/RouterSys.tla as transcription of rumqttd/src/router (bound step by step by trace validation of the real router with a full state projection), TLC, the verif hooks that step the router single-threaded, the scripted clients of the harness. Exhaustive only for the small configurations; production constants sampled by validated traces. Topic aliases, subscription ids, message expiry, segment eviction are not modelled here.",
-        "technique": "TLC model checking of RouterSys.tla + TLC trace validation (state projection per step, invariants on every trace state) of the real router stepped through TLC-generated and seeded schedules",
+        "note": "Trusted: Router.tla/RouterSys.tla as transcription of rumqttd/src/router (bound step by step by trace validation of the real router with a full state projection), TLC, the verif hooks that step the router single-threaded, the scripted clients of the harness. Exhaustive only for the small configurations; production constants sampled by validated traces. Topic aliases are modelled separately (Alias.tla: one publisher, one subscriber, QoS 0) with the scheduling abstracted to one batch per filter and turn; subscription ids, message expiry, segment eviction are not modelled here.",
+        "technique": "TLC model checking of RouterSys.tla and Alias.tla + TLC trace validation (state projection per step, invariants on every trace state) of the real router stepped through TLC-generated and seeded schedules",
     },
     "C02": {
         "bins": ["client_sm", "client_loop"],
@@ -134,12 +134,12 @@ CHECKS = {
         "technique": "TLA+ per-call framing contract checked by TLC on call records of the real decoders (impl->spec) over enumerated and mutated byte strings",
     },
     "C20": {
-        "bins": ["codecs", "crossver"],
+        "bins": ["codecs", "crossver", "aliases"],
         "category": "exploration",
-        "text": "The packet values the routing core can hand to a link are the broker-to-client subset of Wire!Packets5 (enumerated by TLC: publishes with every subset of publish properties, acks/releases with reason codes and properties, subacks, unsubacks, ping responses, disconnects). Each is written with the broker's 3.1.1 and 5 protocol and decoded by the matching client codec: no error, no panic, same topic/payload/ids, properties dropped towards 3.1.1 and preserved towards 5. End to end, a real router thread and two real remote() tasks carry a QoS 1 publish between all four pairs of listener versions, a v5 publisher using every subset of five publish properties, a v5 subscriber plain, with a subscription identifier, and with Topic Alias Maximum set; the subscriber's bytes are decoded with its client codec and compared, the publisher must still get its PUBACK.",
-        "design_ref": "DESIGN.md section 6 / C20",
+        "text": "The packet values the routing core can hand to a link are the broker-to-client subset of Wire!Packets5 (enumerated by TLC: publishes with every subset of publish properties, acks/releases with reason codes and properties, subacks, unsubacks, ping responses, disconnects). Each is written with the broker's 3.1.1 and 5 protocol and decoded by the matching client codec: no error, no panic, same topic/payload/ids, properties dropped towards 3.1.1 and preserved towards 5. End to end, a real router thread and two real remote() tasks carry a QoS 1 publish between all four pairs of listener versions, a v5 publisher using every subset of five publish properties, a v5 subscriber plain, with a subscription identifier, and with Topic Alias Maximum set; the subscriber's bytes are decoded with its client codec and compared, the publisher must still get its PUBACK. 'The same topic' under MQTT 5 topic aliases (either direction) is decided by Alias.tla: model-checked by TLC for Topic Alias Maximum 0..2 and bound to the real routing core and the real rumqttc v5 state machines by trace validation (AliasTrace.tla) of TLC-generated and random scripts.",
+        "design_ref": "DESIGN.md section 6 / C20 and A.8",
         "note": "Trusted: Wire.tla's value space as the set of notifications, the harness. Real time (multi-thread runtime) in the end-to-end part with generous timeouts (500-800 ms waits on an in-memory stream).",
-        "technique": "TLC-enumerated notification values replayed into both broker protocol writers + end-to-end runs over the real router and remote()",
+        "technique": "TLC-enumerated notification values replayed into both broker protocol writers + end-to-end runs over the real router and remote() + TLC model checking of Alias.tla with TLC trace validation of the real alias handling",
     },
     "C17": {
         "bins": ["router_run"], "bins_small": ["router_run"],
